@@ -158,7 +158,11 @@ def gen_program(r, ident, now):
             # generator might append to tell the two apart
             first = names[0].split('/')[-1]
             stem, dot, ext1 = first.partition('.')
-            name = stem + r.pick(['2', '1', '3']) + dot + ext1
+            if r.chance(0.6):
+                # (a generator appending to the whole sanitised name)
+                name = first + r.pick(['2', '2', '3'])
+            else:
+                name = stem + r.pick(['2', '1', '3']) + dot + ext1
             binary = False
         if layout == 'twodirs':
             # same basename in different directories (the reference
